@@ -8,15 +8,15 @@ package refcbor
 // M is a mutable CBOR item.
 type M struct {
 	Major   byte
-	W       int    // argument bytes: 0, 1, 2, 4, 8; -1 = indefinite length
-	Arg     uint64 // ints, tag numbers, major-7 argument
-	Bytes   []byte // bstr / tstr content (definite)
-	Emb     *M     // embedded item carried inside a bstr (replaces Bytes)
-	EmbTail []byte // bytes following the embedded item inside the bstr
-	Items   []*M   // array items
-	Keys    []*M   // map keys
-	Vals    []*M   // map values
-	Child   *M     // tag content
+	W       int     // argument bytes: 0, 1, 2, 4, 8; -1 = indefinite length
+	Arg     uint64  // ints, tag numbers, major-7 argument
+	Bytes   []byte  // bstr / tstr content (definite)
+	Emb     *M      // embedded item carried inside a bstr (replaces Bytes)
+	EmbTail []byte  // bytes following the embedded item inside the bstr
+	Items   []*M    // array items
+	Keys    []*M    // map keys
+	Vals    []*M    // map values
+	Child   *M      // tag content
 	Count   *uint64 // overrides the declared length / element count
 	Verb    []byte  // emitted verbatim instead of everything above
 }
